@@ -1197,7 +1197,7 @@ func TestCheck(t *testing.T) {
 			"dotgit.Ref/SetRef/RemoveRef/Refs/CountLooseRefs/PackRefs/walkReferencesTree/rewritePackedRefsWithoutRef", "dotgit.ReflogReader/ReflogWriter/DeleteReflog, reflog.Encode/Decode",
 			"config.RefSpec.Match/Dst, plumbing.NewReferenceFromStrings", "git.Remote.Fetch, transport/file in-process client+UploadPack server, packp advertisement encode/decode (fetch phase)"},
 		Stub:    []string{"remote repository = memory.Storage (stores any name)", "disk (simfs: posix/ntfs/hfs name folding, symlinks, operation log with resolved paths)", "thin billy layer over simfs (backslash literal on posix/hfs, disguised-dot normalisation, unclamped join mode)"},
-		Runs:    map[string]int{"quick": 100000, "thorough": 2000000},
+		Runs:    map[string]int{"quick": 120000, "thorough": 2000000},
 		NewPlan: func() any { return &Plan{} },
 		Gen:     genPlan,
 		Exec:    execPlan,
